@@ -33,12 +33,15 @@ def rotation_matrix(axis, angle_deg):
 
 def frame_of(mn):
     """mn: {'kind': 'default'} | {'kind': 'str', 'm': 'z', 'n': 'x'} | {'kind': 'vec', 'rot': [axis, angle]}
+    | {'kind': 'axis', 'm': [0, -1, 0], 'n': [0, 0, 1]}  (signed Cartesian axes handed over as vectors, exact)
     ('vec': m, n are the images of x, y under the rotation).  Returns float arrays m, n, xi = m x n."""
     k = mn['kind']
     if k == 'default':
         m, n = np.array(AXES['x']), np.array(AXES['y'])
     elif k == 'str':
         m, n = np.array(AXES[mn['m']]), np.array(AXES[mn['n']])
+    elif k == 'axis':
+        m, n = np.array(mn['m'], dtype=float), np.array(mn['n'], dtype=float)
     elif k == 'vec':
         R = rotation_matrix(*mn['rot'])
         m, n = R @ np.array(AXES['x']), R @ np.array(AXES['y'])
